@@ -7943,11 +7943,15 @@ def aten_prod(self: TReal, dtype: int = -1) -> TReal:
 def aten_prod_dim_int(self: TReal, dim: int, keepdim: bool = False, dtype: int = -1) -> TReal:
     """prod.dim_int(Tensor self, int dim, bool keepdim=False, *, ScalarType? dtype=None) -> Tensor"""
 
+    self_is_scalar = len(self.shape) == 0
     if dtype != -1 and dtype is not None:
         self = op.Cast(self, to=dtype)
     elif self.dtype.is_integer() or self.dtype == ir.DataType.BOOL:
         # PyTorch promotes integral inputs to int64
         self = op.Cast(self, to=INT64.dtype)
+    if self_is_scalar:
+        # a 0-d tensor accepts dim 0 / -1 and has nothing to reduce
+        return op.Identity(self)
     return op.ReduceProd(self, axes=[dim], keepdims=keepdim)
 
 
